@@ -120,4 +120,108 @@ theorem del_partial (L : List Str) (keys : List Str) (hk : ∀ k ∈ keys, plain
         have hm : ¬ p.1 ∈ keys := by simpa using this
         simp [List.filter_cons, hh, hp, ih', hm]
 
+
+/-! ### QUERY_DEL_ALL_EXCEPT, QUERY_ADD, lists of deletions -/
+
+theorem parseSegs_keys_plain (L : List Str) (hL : ∀ s ∈ L, canonicalSeg s = true) :
+    ∀ p ∈ parseSegs L, plainKey p.1 = true := by
+  intro p hp
+  simp only [parseSegs, List.mem_filterMap] at hp
+  obtain ⟨s, hs, hps⟩ := hp
+  have hc := hL s hs
+  rw [parsePair_key s hc p hps]
+  simp only [canonicalSeg, Bool.and_eq_true] at hc
+  exact hc.1.2
+
+theorem mem_dedup (l : List Str) (x : Str) : x ∈ dedup l ↔ x ∈ l := by
+  induction l with
+  | nil => simp [dedup]
+  | cons a as ih =>
+    simp only [dedup, List.mem_cons, List.mem_filter, bne_iff_ne, ne_eq, ih]
+    constructor
+    · rintro (h | ⟨h, _⟩)
+      · exact Or.inl h
+      · exact Or.inr h
+    · intro h
+      by_cases hx : x = a
+      · exact Or.inl hx
+      · rcases h with h | h
+        · exact Or.inl h
+        · exact Or.inr ⟨h, hx⟩
+
+/-- the keys `ReqQueryDelAllExcept` deletes: the cached (parsed) keys that are not to be kept -/
+def exceptKeys (L : List Str) (keep : List Str) : List Str :=
+  (dedup ((parseSegs L).map (·.1))).filter fun k => !keep.contains k
+
+theorem delx_partial (L : List Str) (keep : List Str) (hL : ∀ s ∈ L, canonicalSeg s = true) :
+    parseSegs (L.filter fun s => !segHit (exceptKeys L keep) s) = (parseSegs L).filter fun p => keep.contains p.1 := by
+  have hk : ∀ k ∈ exceptKeys L keep, plainKey k = true := by
+    intro k hk
+    simp only [exceptKeys, List.mem_filter, mem_dedup, List.mem_map] at hk
+    obtain ⟨⟨p, hp, rfl⟩, _⟩ := hk
+    exact parseSegs_keys_plain L hL p hp
+  rw [del_partial L _ hk hL]
+  apply List.filter_congr
+  intro p hp
+  have hmem : p.1 ∈ (parseSegs L).map (·.1) := List.mem_map.mpr ⟨p, hp, rfl⟩
+  cases hkeep : keep.contains p.1 with
+  | true =>
+    have hin : p.1 ∈ keep := by simpa using hkeep
+    have : ¬ p.1 ∈ exceptKeys L keep := by
+      simp [exceptKeys, List.mem_filter, hin]
+    simp [this, hin]
+  | false =>
+    have : p.1 ∈ exceptKeys L keep := by
+      simp only [exceptKeys, List.mem_filter, mem_dedup]
+      have hnin : ¬ p.1 ∈ keep := by simpa using hkeep
+      exact ⟨hmem, by simpa using hnin⟩
+    have hnin : ¬ p.1 ∈ keep := by simpa using hkeep
+    simp [this, hnin]
+
+theorem cutEq_append (k v : Str) (hk : k.all (fun c => c != '=') = true) : cutEq (k ++ '=' :: v) = (k, v) := by
+  induction k with
+  | nil => simp [cutEq]
+  | cons c cs ih =>
+    simp only [List.all_cons, Bool.and_eq_true, bne_iff_ne, ne_eq] at hk
+    simp [cutEq, hk.1, ih hk.2]
+
+theorem plain_no_semi (k : Str) (h : plainKey k = true) : k.contains ';' = false := by
+  induction k with
+  | nil => rfl
+  | cons c cs ih =>
+    simp only [plainKey, List.all_cons, Bool.and_eq_true, bne_iff_ne, ne_eq] at h
+    have h2 := ih (by simpa [plainKey] using h.2)
+    have hc : c ≠ ';' := h.1.1.2
+    simp only [List.contains_cons, Bool.or_eq_false_iff, beq_eq_false_iff_ne, ne_eq]
+    exact ⟨fun e => hc e.symm, h2⟩
+
+theorem parsePair_plain (k v : Str) (hk : plainKey k = true) (hv : plainKey v = true) :
+    parsePair (k ++ '=' :: v) = some (k, v) := by
+  have hne : (k ++ '=' :: v).isEmpty = false := by cases k <;> simp
+  have hsemi : (k ++ '=' :: v).contains ';' = false := by
+    have h1 := plain_no_semi k hk
+    have h2 := plain_no_semi v hv
+    simp only [List.contains_eq_mem, List.mem_append, List.mem_cons, decide_eq_false_iff_not] at h1 h2 ⊢
+    rintro (h | h | h)
+    · exact h1 h
+    · exact absurd h (by decide)
+    · exact h2 h
+  unfold parsePair
+  simp only [hne, hsemi, Bool.false_eq_true, ↓reduceIte, cutEq_append k v (plainKey_noEq k hk), unescape_plain k hk,
+    unescape_plain v hv]
+
+theorem add_general (L : List Str) (k v : Str) (hk : plainKey k = true) (hv : plainKey v = true) :
+    parseSegs (L ++ [k ++ '=' :: v]) = parseSegs L ++ [(k, v)] := by
+  simp [parseSegs, List.filterMap_append, parsePair_plain k v hk hv]
+
+theorem segHit_append (k1 k2 : List Str) (s : Str) : segHit (k1 ++ k2) s = (segHit k1 s || segHit k2 s) := by
+  simp [segHit, List.any_append]
+
+theorem del_del (L : List Str) (k1 k2 : List Str) :
+    (L.filter fun s => !segHit k1 s).filter (fun s => !segHit k2 s) = L.filter fun s => !segHit (k1 ++ k2) s := by
+  rw [List.filter_filter]
+  apply List.filter_congr
+  intro s _
+  rw [segHit_append]; cases segHit k1 s <;> cases segHit k2 s <;> rfl
+
 end BfeVerif.C49
